@@ -39,6 +39,7 @@
 #include <dirent.h>
 #include <fcntl.h>
 #include <fstream>
+#include <future>
 #include <mutex>
 #include <random>
 #include <stdexcept>
@@ -343,6 +344,7 @@ std::vector<Frame> pbf_frames(const std::string& d) {
 // ---------------------------------------------------------------- the consumer
 std::string classify(const std::exception& e) {
     if (dynamic_cast<const Injected*>(&e)) return "exc-pipe";
+    if (dynamic_cast<const std::future_error*>(&e)) return "exc-future";      // e.g. broken promise: not the error that happened
     const std::string w = e.what();
     if (w.find("Can not read from reader when in status") != std::string::npos) return "exc-state";
     if (w.find("Can not get header from reader when in status") != std::string::npos) return "exc-state";
@@ -406,7 +408,9 @@ RunResult run_script(MakeReader&& make_reader, bool real, RealAcc* acc, bool met
                         for (const auto& obj : b.select<osmium::OSMObject>()) {
                             acc->ids.push_back(obj.id());
                             const bool has_meta = obj.version() != 0 || obj.changeset() != 0 || !obj.user_is_anonymous();
-                            if (has_meta != meta_expected) res = "data-meta-wrong";
+                            // read_meta::no allows the parser to drop metadata (only the PBF parser does); it must
+                            // never go missing when it was asked for, and nothing else may change
+                            if (meta_expected && !has_meta) res = "data-meta-lost";
                             if (obj.tags().empty()) res = "data-tags-lost";
                         }
                         if (b.committed() == 0) res = "empty-buffer";
@@ -543,7 +547,22 @@ void write_trace(const json& c, const std::string& path, const json& hdr, bool a
     (void)c;
 }
 
+std::atomic<int64_t> g_deadline_ms{0};
+std::string g_current_id;
+int64_t now_ms() { return std::chrono::duration_cast<std::chrono::milliseconds>(std::chrono::steady_clock::now().time_since_epoch()).count(); }
+void run_case_inner(const json& c);
 void run_case(const json& c) {
+    g_current_id = c["id"].get<std::string>();
+    g_deadline_ms = now_ms() + static_cast<int64_t>(c.value("budget_s", 30)) * 1000 * static_cast<int64_t>(c["seeds"].size());
+    try {
+        run_case_inner(c);
+    } catch (...) {
+        g_deadline_ms = 0;
+        throw;
+    }
+    g_deadline_ms = 0;
+}
+void run_case_inner(const json& c) {
     load_cfg(c["cfg"]);
     set_env(c);
     const std::string mode = c["mode"];
@@ -629,10 +648,31 @@ void run_case(const json& c) {
     }
 }
 
+// A pipeline that deadlocks must not hang the check: a case that does not finish within its budget is reported
+// (with the tail of the trace recorded so far) and the process exits.
+void watchdog() {
+    for (;;) {
+        std::this_thread::sleep_for(std::chrono::milliseconds(100));
+        const int64_t d = g_deadline_ms.load();
+        if (d != 0 && now_ms() > d) {
+            json tail = json::array();
+            {
+                const std::lock_guard<std::mutex> lock{g_trace_mutex};
+                const std::size_t n = g_trace.size();
+                for (std::size_t i = n > 25 ? n - 25 : 0; i < n; ++i) tail.push_back(g_trace[i]);
+            }
+            vh::emit(json{{"id", g_current_id}, {"ok", false}, {"step", -1}, {"note", "hang: the Reader did not finish (deadlock or livelock)"},
+                          {"exp", "termination"}, {"got", tail}});
+            ::_exit(0);
+        }
+    }
+}
+
 }  // namespace
 
 int main(int argc, char** argv) {
     g_tmpdir = argc > 1 ? argv[1] : "/tmp";
+    std::thread{watchdog}.detach();
     ::mkdir(g_tmpdir.c_str(), 0700);
     g_real_opl = oid::ParserFactory::instance().get_creator_function(oio::File{"a.osm.opl"});
     g_real_pbf = oid::ParserFactory::instance().get_creator_function(oio::File{"a.osm.pbf"});
